@@ -79,6 +79,12 @@ class World:
                 ins, coefs, const = [rel[1]], [F(1)], F(0)
             elif rel[0] == 'both':
                 ins, coefs, const = [rel[1]], [fr(rel[2])], fr(rel[3])
+            elif rel[0] == 'part':
+                # a * x + b where x >= c, not a finite number elsewhere (one-way)
+                sub = self.derive(nb, rel[1], t)
+                if sub is None:
+                    return None
+                return ('lnk', [fr(rel[2])], fr(rel[3]), [('guard', fr(rel[4]), sub)])
             else:
                 ins, coefs, const = [j for j, _ in rel[1]], [fr(c) for _, c in rel[1]], fr(rel[2])
         else:
@@ -105,19 +111,160 @@ class World:
         return [self.derive(s, i, t) for i in range(len(self.shapes[s]))]
 
 
+# ------------------------------------------------------------------ datasets linked through world coordinates
+def finv(M):
+    n = len(M)
+    A = [[F(x) for x in row] + [F(int(i == j)) for j in range(n)] for i, row in enumerate(M)]
+    for c in range(n):
+        p = next((r for r in range(c, n) if A[r][c] != 0), None)
+        if p is None:
+            return None
+        A[c], A[p] = A[p], A[c]
+        piv = A[c][c]
+        A[c] = [x / piv for x in A[c]]
+        for r in range(n):
+            if r != c and A[r][c] != 0:
+                f = A[r][c]
+                A[r] = [x - f * y for x, y in zip(A[r], A[c])]
+    return [row[n:] for row in A]
+
+
+def cspec_mt(cspec):
+    """(M, t) in fits order as Fractions"""
+    if cspec[0] == 'id':
+        n = cspec[1]
+        return [[F(int(i == j)) for j in range(n)] for i in range(n)], [F(0)] * n
+    return [[F(x) for x in r] for r in cspec[1]], [F(x) for x in cspec[2]]
+
+
+def mk_coords(cspec):
+    from glue.core.coordinates import AffineCoordinates, IdentityCoordinates
+    if cspec[0] == 'id':
+        return IdentityCoordinates(n_dim=cspec[1])
+    M, t = cspec_mt(cspec)
+    n = len(M)
+    A = np.zeros((n + 1, n + 1))
+    for i in range(n):
+        for j in range(n):
+            A[i, j] = float(M[i][j])
+        A[i, n] = float(t[i])
+    A[n, n] = 1
+    return AffineCoordinates(A)
+
+
+def dep_component(cspec, axis):
+    """what dependent_axes must return (numpy order): the axes connected to `axis` in the graph of the non-zero entries; own implementation"""
+    M, _ = cspec_mt(cspec)
+    n = len(M)
+    adj = {i: set() for i in range(n)}
+    for k in range(n):
+        for j in range(n):
+            if M[k][j] != 0:
+                a, b = n - 1 - k, n - 1 - j
+                adj[a].add(b)
+                adj[b].add(a)
+    seen, todo = {axis}, [axis]
+    while todo:
+        x = todo.pop()
+        for y in adj[x]:
+            if y not in seen:
+                seen.add(y)
+                todo.append(y)
+    return sorted(seen)
+
+
+class WorldW:
+    """dataset 0 (the reference) and datasets 1.. with identity / affine coordinates; world axis a of dataset k >= 1 is linked
+    (LinkSame) to world axis wlink[k][a] of dataset 0, or to nothing"""
+
+    def __init__(self, spec):
+        self.spec = spec
+        self.shapes = [tuple(x) for x in spec['shapes']]
+        self.coords = spec['coords']
+        self.wlink = spec['wlink']
+        self.n = len(self.shapes)
+
+    def world_leaf(self, k, a):
+        """world axis a (numpy order) of dataset k as a function of k's own pixel position"""
+        M, t = cspec_mt(self.coords[k])
+        n = len(M)
+        row = n - 1 - a
+        terms = [(n - 1 - jf, M[row][jf]) for jf in range(n) if M[row][jf] != 0]
+        return ('world', terms, t[row], dep_component(self.coords[k], a))
+
+    def world_in(self, s, j, t):
+        """world axis j of dataset s in the frame of dataset t (s != t)"""
+        if t == 0:
+            b = self.wlink[s][j]
+            return None if b is None else ('lnk', [F(1)], F(0), [self.world_leaf(0, b)])
+        if s == 0:
+            cand = [a for a, b in enumerate(self.wlink[t]) if b == j]
+            return None if not cand else ('lnk', [F(1)], F(0), [self.world_leaf(t, cand[0])])
+        b = self.wlink[s][j]
+        if b is None:
+            return None
+        inner = self.world_in(0, b, t)
+        return None if inner is None else ('lnk', [F(1)], F(0), [inner])
+
+    def derive(self, s, i, t):
+        if s == t:
+            return ('pix', i)
+        M, tr = cspec_mt(self.coords[s])
+        n = len(M)
+        Mi = finv(M)
+        ti = [-sum(Mi[p][q] * tr[q] for q in range(n)) for p in range(n)]
+        needed = dep_component(self.coords[s], i)
+        subs = [self.world_in(s, j, t) for j in needed]
+        if any(x is None for x in subs):
+            return None
+        return ('lnk', [Mi[n - 1 - i][n - 1 - j] for j in needed], ti[n - 1 - i], subs)
+
+    def exprs(self, s, t):
+        return [self.derive(s, i, t) for i in range(len(self.shapes[s]))]
+
+
+def make_world(spec):
+    return WorldW(spec) if spec.get('kind') == 'world' else World(spec)
+
+
 def ev(tree, pos):
+    """exact position, or None when it is not a finite number (outside the domain of a partial link)"""
     if tree[0] == 'pix':
         return pos[tree[1]]
-    return sum(c * ev(a, pos) for c, a in zip(tree[1], tree[3])) + tree[2]
+    if tree[0] == 'world':
+        return sum(c * pos[j] for j, c in tree[1]) + tree[2]
+    if tree[0] == 'guard':
+        x = ev(tree[2], pos)
+        return x if (x is not None and x >= tree[1]) else None
+    vals = [ev(a, pos) for a in tree[3]]
+    if any(v is None for v in vals):
+        return None
+    return sum(c * v for c, v in zip(tree[1], vals)) + tree[2]
 
 
 def tdims(tree):
     if tree[0] == 'pix':
         return {tree[1]}
+    if tree[0] == 'world':
+        return set(tree[3])
+    if tree[0] == 'guard':
+        return tdims(tree[2])
     out = set()
     for a in tree[3]:
         out |= tdims(a)
     return out
+
+
+def mkpart(a, b, c, undef):
+    fa, fb, fc = float(F(a)), float(F(b)), float(F(c))
+    uv = {'nan': np.nan, 'inf': np.inf, '-inf': -np.inf}[undef]
+
+    def fpart(x):
+        x = np.asarray(x, dtype=float)
+        return np.where(x >= fc, fa * x + fb, uv)
+    fpart.spec = ([F(a)], F(b))
+    fpart.guard = F(c)
+    return fpart
 
 
 def mkfun(coefs, const):
@@ -154,13 +301,22 @@ class Built:
             size = int(np.prod(sh))
             v = (np.arange(size) + 100 * (k + 1)).reshape(sh)
             u = ((np.arange(size) * 7 + 3 * k) % 11 - 5).reshape(sh)
-            d = Data(v=v, u=u, label='d%d' % k)
+            if getattr(world, 'coords', None) is not None:
+                d = Data(v=v, u=u, label='d%d' % k, coords=mk_coords(world.coords[k]))
+            else:
+                d = Data(v=v, u=u, label='d%d' % k)
             self.data.append(d)
             thr = 100 * (k + 1) + size // 2
             st = [d.id['v'] > thr, (d.id['u'] < 0) | (d.id['v'] > thr + 1)]
             self.states.append(st)
             self.full.append({'attr': [v, u], 'mask': [v > thr, (u < 0) | (v > thr + 1)]})
         self.dc = DataCollection(self.data)
+        if getattr(world, 'coords', None) is not None:
+            for k in range(1, world.n):
+                for a, b in enumerate(world.wlink[k]):
+                    if b is not None:
+                        self.dc.add_link(LinkSame(self.data[0].world_component_ids[b], self.data[k].world_component_ids[a]))
+            return
         for k in range(1, world.n):
             p = world.parent[k]
             for i, rel in enumerate(world.rels[k]):
@@ -173,6 +329,9 @@ class Built:
                     a, b = fr(rel[2]), fr(rel[3])
                     self.dc.add_link(ComponentLink([self.data[p].pixel_component_ids[rel[1]]], ci,
                                                    using=mkfun([a], b), inverse=mkfun([1 / a], -b / a)))
+                elif rel[0] == 'part':
+                    self.dc.add_link(ComponentLink([self.data[p].pixel_component_ids[rel[1]]], ci,
+                                                   using=mkpart(rel[2], rel[3], rel[4], rel[5])))
                 else:
                     self.dc.add_link(ComponentLink([self.data[p].pixel_component_ids[j] for j, _ in rel[1]], ci,
                                                    using=mkfun([fr(c) for _, c in rel[1]], fr(rel[2]))))
@@ -198,6 +357,8 @@ def glue_tree(B, s, i, t):
         subs = [walk(c, depth + 1) for c in link._from]
         if any(x is None for x in subs):
             return None
+        if getattr(f, 'guard', None) is not None:
+            subs = [('guard', f.guard, subs[0])]
         return ('lnk', spec[0], spec[1], subs)
     return walk(B.data[s].pixel_component_ids[i])
 
@@ -277,6 +438,10 @@ def direct(world, built_full, req):
         inside = True
         for i, tr in enumerate(trees):
             x = ev(tr, pos)
+            if x is None:              # not a finite number: the sample corresponds to no pixel of the source
+                inside = False
+                idx.append(0)
+                continue
             if (2 * x).denominator == 1 and x.denominator != 1:
                 return ('half',)
             k = round_nearest(x)
@@ -345,6 +510,10 @@ def tree_enc(tr):
 def expr_enc(tr):
     if tr[0] == 'pix':
         return (1, [tr[1]])
+    if tr[0] == 'world':
+        return (3, [(0, [(0, [j, q_enc(c)]) for j, c in tr[1]]), q_enc(tr[2]), Z(sorted(tr[3]))])
+    if tr[0] == 'guard':
+        return (4, [q_enc(tr[1]), expr_enc(tr[2])])
     return (2, [(0, [q_enc(c) for c in tr[1]]), q_enc(tr[2]), (0, [expr_enc(a) for a in tr[3]])])
 
 
@@ -393,7 +562,7 @@ def dec_out(t, is_mask):
 QUARTERS = [F(k, 4) for k in range(-8, 25)]
 
 
-def gen_world(rng, maxdim=3, maxsize=4, nds=None):
+def gen_world(rng, maxdim=3, maxsize=4, nds=None, partial=True):
     n = nds or rng.choice([1, 2, 2, 3, 3])
     shapes = []
     for k in range(n):
@@ -414,7 +583,12 @@ def gen_world(rng, maxdim=3, maxsize=4, nds=None):
             free1 = [j for j in range(pn) if j not in two_way]
             if r < 0.06 or (not free1):
                 axes.append(None)
-            elif r < 0.42 and free2:
+            elif r < 0.16 and partial:
+                j = rng.choice(free1)
+                one_way.add(j)
+                axes.append(['part', j, fs(rng.choice([F(1), F(2), F(1, 2), F(-1)])), fs(rng.choice([F(0), F(-1), F(1, 4)])),
+                             fs(rng.choice([F(0), F(1), F(1, 2), F(-1, 4)])), rng.choice(['nan', 'nan', 'inf', '-inf'])])
+            elif r < 0.46 and free2:
                 j = rng.choice(free2)
                 two_way.add(j)
                 axes.append(['same', j])
@@ -480,9 +654,100 @@ def gen_request(rng, world, prev=None):
             'ints': rng.random() < 0.3, 'implicit_target': rng.random() < 0.3}
 
 
-def gen_sequence(rng, world, full, maxlen):
-    seq = []
-    prev = None
+def random_unimodular(rng, n, steps=3):
+    M = [[int(i == j) for j in range(n)] for i in range(n)]
+    for _ in range(steps):
+        op = rng.randrange(3)
+        i, j = rng.randrange(n), rng.randrange(n)
+        if op == 0 and i != j:
+            c = rng.choice([-2, -1, 1, 2])
+            M[i] = [a + c * b for a, b in zip(M[i], M[j])]
+        elif op == 1 and i != j:
+            M[i], M[j] = M[j], M[i]
+        elif op == 2:
+            M[i] = [-a for a in M[i]]
+    return M
+
+
+def gen_cspec(rng, n, allow_coupled=True):
+    """identity / diagonal / permuted / sheared (triangular) / coupled coordinates with small integer and dyadic entries"""
+    kind = rng.choice(['id', 'diag', 'perm', 'shear', 'shear', 'coupled'] if allow_coupled and n >= 2 else ['id', 'diag', 'perm'])
+    if kind == 'id':
+        return ['id', n]
+    sc = [F(1), F(1), F(2), F(1, 2), F(-1)]
+    M = [[F(0)] * n for _ in range(n)]
+    if kind == 'diag':
+        for i in range(n):
+            M[i][i] = rng.choice(sc)
+    elif kind == 'perm':
+        p = list(range(n))
+        rng.shuffle(p)
+        for i in range(n):
+            M[i][p[i]] = rng.choice(sc)
+    elif kind == 'shear':
+        up = rng.random() < 0.5
+        for i in range(n):
+            M[i][i] = rng.choice([F(1), F(1), F(-1), F(2)])
+        cnt = 0
+        for i in range(n):
+            for j in range(n):
+                if (j > i if up else j < i) and (rng.random() < 0.6 or cnt == 0):
+                    M[i][j] = rng.choice([F(1), F(2), F(-1), F(1, 2)])
+                    cnt += 1
+    else:
+        U = random_unimodular(rng, n, rng.randrange(2, 5))
+        d = [rng.choice([F(1), F(1), F(2), F(1, 2)]) for _ in range(n)]
+        M = [[d[i] * U[i][j] for j in range(n)] for i in range(n)]
+    t = [rng.choice([F(0), F(0), F(1), F(-1), F(1, 2), F(2)]) for _ in range(n)]
+    return ['aff', [[fs(x) for x in r] for r in M], [fs(x) for x in t]]
+
+
+def gen_world_w(rng):
+    nt = rng.choice([1, 2, 2, 3, 3, 3])
+    nds = rng.choice([2, 2, 2, 3])
+    shapes = [[rng.choice([2, 3, 4]) for _ in range(nt)]]
+    coords = [gen_cspec(rng, nt)]
+    wlink = [None]
+    for k in range(1, nds):
+        ns = nt if (nt == 1 or rng.random() < 0.7) else nt - 1
+        shapes.append([rng.choice([2, 3, 4, 5]) for _ in range(ns)])
+        coords.append(gen_cspec(rng, ns, allow_coupled=rng.random() < 0.6))
+        tgt = rng.sample(range(nt), ns)
+        if rng.random() < 0.06:
+            tgt[rng.randrange(ns)] = None
+        wlink.append(tgt)
+    return {'kind': 'world', 'shapes': shapes, 'coords': coords, 'wlink': wlink}
+
+
+def step_prefix(rng, world, full):
+    """the same ranged bounds with one scalar bound stepping through several values, under one cache id (slicing through a cube)"""
+    t = 0
+    s = rng.randrange(1, world.n) if world.n > 1 else 0
+    nt = len(world.shapes[t])
+    z = rng.randrange(nt)
+    base = []
+    for j, size in enumerate(world.shapes[t]):
+        if j == z:
+            base.append(None)
+        elif rng.random() < 0.75:
+            base.append(['r', '0', fs(size - 1), size])
+        else:
+            base.append(gen_bound(rng, size))
+    vals = [F(v) for v in range(world.shapes[t][z])] + [F(-1), F(world.shapes[t][z]), F(1, 4), F(5, 4)]
+    rng.shuffle(vals)
+    what = rng.choice([['attr', 0], ['attr', 0], ['mask', 0]])
+    out = []
+    for v in vals[:rng.randrange(2, 5)]:
+        b = [list(x) if x is not None else ['s', fs(v)] for x in base]
+        r = {'s': s, 't': t, 'bounds': b, 'what': list(what), 'broadcast': True, 'cache': 'A', 'ints': rng.random() < 0.3, 'implicit_target': False}
+        if direct(world, full, r)[0] != 'half':
+            out.append(r)
+    return out
+
+
+def gen_sequence(rng, world, full, maxlen, prefix=None):
+    seq = list(prefix or [])
+    prev = seq[-1] if seq else None
     tries = 0
     while len(seq) < maxlen and tries < maxlen * 20:
         tries += 1
@@ -575,17 +840,18 @@ def req_kind(world, r, dr):
     return 'inside'
 
 
-def stream_sequences(R, name, nseq, maxlen, maxdim, maxsize):
+def stream_sequences(R, name, nseq, maxlen, maxdim, maxsize, world_links=False):
     lines, meta = [], []
     for i in range(nseq):
         rng = R.subrng(name, i)
-        spec = gen_world(rng, maxdim=maxdim, maxsize=maxsize)
-        world = World(spec)
+        spec = gen_world_w(rng) if world_links else gen_world(rng, maxdim=maxdim, maxsize=maxsize)
+        world = make_world(spec)
         B = Built(world)
-        if not structure_ok(B):
+        if not world_links and not structure_ok(B):
             R.hist['skipped']['link structure differs from the harness derivation'] += 1
             continue
-        seq = gen_sequence(rng, world, B.full, rng.randrange(2, maxlen + 1))
+        prefix = step_prefix(rng, world, B.full) if (world_links or rng.random() < 0.25) else None
+        seq = gen_sequence(rng, world, B.full, max(len(prefix or []), rng.randrange(2, maxlen + 1)), prefix)
         res = run_sequence(B, seq)
         cache_num = {None: None, 'A': 1, 'B': 2}
         lines.append(enc((1, [world_enc(world, B.full), (0, [req_enc(r, cache_num[r['cache']]) for r in seq])])))
@@ -866,7 +1132,12 @@ def run(R):
     _nfail.clear()
     stream_round(R)
     stream_exhaustive(R)
-    n1 = stream_sequences(R, 'random', R.pick(1500, 12000), 12, 3, 4)
+    n1 = stream_sequences(R, 'random', R.pick(1200, 10000), 12, 3, 4)
+    n2 = stream_sequences(R, 'world_seq', R.pick(400, 3000), 10, 3, 4, world_links=True)
+    R.stream('world_seq', sequences=n2, exhaustive=False,
+             bound='reference with identity / diagonal / permuted / sheared / coupled AffineCoordinates (1-3 dims), 1-2 sources with their own coordinates '
+                   'linked by LinkSame on world ids (permuted, fewer dimensions, an unlinked axis); every sequence starts by stepping one scalar bound through '
+                   '2-4 values under one cache id with the other bounds fixed, then continues like `random`; implementation cached / uncached, model, direct oracle')
     R.stream('random', sequences=n1, exhaustive=False,
              bound='seeded worlds of 1-3 datasets in a tree (LinkSame / two-way affine / one-way one- and two-input affine links, unlinked axes), '
                    '1-3 dims, sizes 1..4; sequences of 2..12 requests derived from each other (change a scalar bound, a range, the attribute / mask, '
@@ -910,7 +1181,7 @@ def replay(R, case):
     out = {'case': case}
     st = case.get('stream')
     if st in ('random', 'exhaustive', 'malformed'):
-        world = World(case['world'])
+        world = make_world(case['world'])
         B = Built(world)
         seq = case['requests']
         res = run_sequence(B, seq)
